@@ -18,7 +18,7 @@ func init() { register(c14{}) }
 func (c14) ID() string            { return "C14" }
 func (c14) EvidenceLevel() string { return "fault_enumeration" }
 func (c14) Rule() string {
-	return "fault enumeration: for each operation sequence (one big Write; many small Writes; Write/Flush alternation; Close with pending tokens; Huffman-only blocks of more than 8 KiB output so that failures land between chunks of one block; each followed by 3 further random ops) on flate/gzip/zlib at levels -2..9 and both windows, the fault-free run counts N destination calls; then the destination fails at call k, for every k in 1..N when N <= 200, else k in 1..64, the last 16 and 64 seeded indices, returning (0,E) or (len(p)/2,E). The op in progress must return an error with errors.Is(err,E); every later Write/Flush/Close must fail; the destination must not be called again; no panic; red zones intact; after Reset onto a good destination the Writer must produce a valid stream. The fault-free run itself must pass the C01 oracle. Non-trivial: a (sequence, k) pair in which the failure happened; distinct by (setting, data digest, ops, k, mode)."
+	return "fault enumeration: for each operation sequence (one big Write; many small Writes; Write/Flush alternation; Close with pending tokens; Huffman-only blocks of more than 8 KiB output so that failures land between chunks of one block; each followed by 3 further random ops) on flate/gzip/zlib at levels -2..9 and both windows, the fault-free run counts N destination calls; then the destination fails at call k, for every k in 1..N when N <= 200, else k in 1..64, the last 16 and 64 seeded indices, returning (0,E), (len(p)/2,E) or (len(p),E); E is a plain error, a timeout-typed error or an error of uncomparable dynamic type; a third of the faults are transient (only call k fails); gzip Writers carry header variants (default, empty non-nil Extra, short and 65535-byte Extra, Name/Comment). The op in progress must return an error with errors.Is(err,E); every later Write/Flush/Close must fail; the destination must not be called again; no panic; red zones intact; after Reset onto a good destination the Writer must produce a valid stream. The fault-free run itself must pass the C01 oracle. Non-trivial: a (sequence, k) pair in which the failure happened; distinct by (setting, data digest, ops, k, mode)."
 }
 func (c14) NumCases(tier string) int {
 	if tier == "thorough" {
@@ -133,6 +133,9 @@ func (p c14) Run(c *mon.Ctx, i int) {
 	}
 	if s.Wrapper == "flate" {
 		s.Win4K = r.Chance(1, 3)
+	}
+	if s.Wrapper == "gzip" {
+		s.Hdr = gzipHeaderVariant(r, i/4)
 	}
 	if s.Wrapper == "zlib" && r.Chance(1, 3) {
 		s.Dict = []byte("a preset dictionary: header plus four more bytes to write")
@@ -328,10 +331,13 @@ func (p c14) Run(c *mon.Ctx, i int) {
 		}
 	}
 	for _, k := range ks {
-		E := errors.New(fmt.Sprintf("c14: destination failed at call %d", k))
+		E, ekind := faultError(k+i, fmt.Sprintf("c14: destination failed at call %d", k))
 		partial := r.Bool()
 		fullCnt := !partial && r.Bool()
-		sink := &Sink{FailAt: k, FailErr: E, Partial: partial, FullCount: fullCnt}
+		// a transient fault: only call k fails, the destination works again
+		// afterwards (a Writer that lost the error goes on writing to it)
+		transient := (k+i/5)%3 == 0
+		sink := &Sink{FailAt: k, FailErr: E, Partial: partial, FullCount: fullCnt, Transient: transient}
 		errs, w, pv, st, ge := run(sink, false)
 		if w == nil {
 			return
@@ -340,7 +346,11 @@ func (p c14) Run(c *mon.Ctx, i int) {
 			defer g.DropGuards()
 		}
 		c.Eval(1)
-		d2 := map[string]interface{}{"fail_at_call": k, "destination_calls_fault_free": N, "partial_write": partial, "full_count_with_error": fullCnt}
+		d2 := map[string]interface{}{"fail_at_call": k, "destination_calls_fault_free": N, "partial_write": partial, "full_count_with_error": fullCnt, "error_kind": ekind, "transient_fault": transient}
+		c.Count("fault-error-kind:"+ekind, 1)
+		if transient {
+			c.Count("transient-faults", 1)
+		}
 		for a, b := range desc {
 			d2[a] = b
 		}
